@@ -1140,8 +1140,12 @@ func c14EndToEnd(c *Ctx, cases *[]Case, sub func() *rand.Rand) {
 		for j := rng.Intn(4); j > 0 && rng.Intn(2) == 0; j-- {
 			pre = append(pre, []string{"PTT TRUE", "PTT FALSE", "NEWSTATE ISS", "BUSY FALSE", "STATUS queued", "RDY"}[rng.Intn(6)])
 		}
+		stalled := i%5 == 3 && size > 0
+		if stalled {
+			pre = nil // the message that meets the stalled receiver is the answer to the data frame itself
+		}
 		inbound := i%3 == 2 // every third write goes out on an ACCEPTED connection (Listen/Accept) instead of a dialled one
-		rep := map[string]interface{}{"mode": map[bool]string{true: "tcp", false: "serial"}[tcp], "connection": map[bool]string{true: "accepted (Listen/Accept)", false: "dialled"}[inbound], "write_len": size, "crcfaults": faults, "data_fnv": fnv32(p), "before_each_answer": pre}
+		rep := map[string]interface{}{"mode": map[bool]string{true: "tcp", false: "serial"}[tcp], "connection": map[bool]string{true: "accepted (Listen/Accept)", false: "dialled"}[inbound], "write_len": size, "crcfaults": faults, "data_fnv": fnv32(p), "before_each_answer": pre, "stalled_state_receiver": stalled}
 		env, err := c14Open(tcp, nil)
 		if err != nil {
 			c.Violate("C14:open-failed", "ardop.Open against the simulated TNC failed: "+err.Error(), rep)
@@ -1157,6 +1161,21 @@ func c14EndToEnd(c *Ctx, cases *[]Case, sub func() *rand.Rand) {
 			} else if err := env.dial(); err != nil {
 				c.Violate("C14:connect-failed:dial", "no connection against the simulated TNC: "+err.Error(), rep)
 				return
+			}
+			if stalled {
+				// the application also watches the TNC state through the public ListenEnabled() receiver but is not
+				// reading its States() channel right now (a stalled status display). The driver gives up on such a
+				// receiver after 500 ms; that must not cost any OTHER receiver - the Write below - a message.
+				sr := env.tnc.ListenEnabled()
+				defer sr.Close()
+				env.sim.sendCtrl("NEWSTATE IRS")
+				for k := 0; env.tnc.State() != ardop.IRS; k++ {
+					if k == 300 {
+						c.Violate("C14:newstate-not-processed", "NEWSTATE IRS was not processed within 3 s", rep)
+						return
+					}
+					time.Sleep(10 * time.Millisecond)
+				}
 			}
 			env.sim.mu.Lock()
 			env.sim.faultNext = faults
